@@ -2,3 +2,4 @@ import SweepG.Quire
 import SweepG.Quire8
 import SweepG.Sample
 import SweepG.Poly
+import SweepG.Px
